@@ -23,6 +23,7 @@
 #
 #
 # Author: Ilya Baldin (ibaldin@renci.org)
+import copy
 import dataclasses
 from typing import List, Tuple, Any, Dict
 import enum
@@ -109,6 +110,9 @@ class MaintenanceInfo:
         assigned to a property
         """
         self._lock = True
+        # a finalized object keeps entries of its own: it cannot be altered
+        # through the entry objects it was built from
+        self._nodes = {k: copy.copy(v) for k, v in self._nodes.items()}
 
     def add(self, name: str, minfo: MaintenanceEntry) -> None:
         """
@@ -119,7 +123,9 @@ class MaintenanceInfo:
         self._nodes[name] = minfo
 
     def get(self, name: str) -> MaintenanceEntry or None:
-        return self._nodes.get(name)
+        entry = self._nodes.get(name)
+        # a finalized object hands out copies of its entries
+        return copy.copy(entry) if self._lock else entry
 
     def rem(self, name: str) -> None:
         """
@@ -150,7 +156,7 @@ class MaintenanceInfo:
         Copy an instance of the object but don't finalize
         """
         t = MaintenanceInfo()
-        t._nodes = self._nodes.copy()
+        t._nodes = {k: copy.copy(v) for k, v in self._nodes.items()}
         return t
 
     def list_names(self) -> List[str]:
@@ -163,7 +169,7 @@ class MaintenanceInfo:
         """
         Return a list of tuples with node name and maintenance state details
         """
-        return list(self._nodes.copy().items())
+        return [(k, copy.copy(v)) for k, v in self._nodes.items()]
 
     def iter(self):
         """
@@ -173,8 +179,8 @@ class MaintenanceInfo:
         """
         if not self._lock:
             raise MaintenanceModeException("Object should be finalized prior to attempting iteration")
-        for i in self._nodes.items():
-            yield i
+        for k, v in self._nodes.items():
+            yield k, copy.copy(v)
 
     @classmethod
     def from_json(cls, json_string: str):
